@@ -38,7 +38,7 @@ const chunk = 100
 func (o *output) write(vpath, jpath string) error {
 	var sb strings.Builder
 	sb.WriteString("From Coq Require Import List ZArith NArith Bool.\n")
-	sb.WriteString("From Scalibr Require Import RemedC11.Upgrade RemedC11.Suggest RemedC11.Relax RemedC11.Override RemedC11.Cases.\n")
+	sb.WriteString("From Scalibr Require Import RemedC11.Upgrade RemedC11.Suggest RemedC11.Relax RemedC11.Override RemedC11.RelaxLoop RemedC11.Cases.\n")
 	sb.WriteString("Import ListNotations.\nOpen Scope N_scope.\n")
 	sb.WriteString("(* END-HEADER *)\n")
 	for _, s := range o.order {
